@@ -2,12 +2,75 @@
 from common import *
 import c03
 
+def store_fault_cases(res):
+    """the trust store cannot be read when the certificate is to be verified (locked, table missing, I/O error): the
+    verification has not succeeded, so no request byte may leave - for a pinned-different, a pinned-same (nothing proves it)
+    and an unpinned host alike the call must fail without writing"""
+    import asyncio, sqlite3, types
+    from pathlib import Path
+    import certs as certmod, clientdrv as cd
+    import nauyaca.security.tofu as tofu
+    from nauyaca.client.session import GeminiClient
+    from nauyaca.security.tofu import TOFUDatabase
+    cs = certmod.certs()
+    tmp = scratch_dir("nv-c11f-")
+    class BadCursor:
+        rowcount = -1
+        def execute(self, *a, **k): raise sqlite3.OperationalError("database is locked")
+        def fetchone(self): raise sqlite3.OperationalError("database is locked")
+        def fetchall(self): raise sqlite3.OperationalError("database is locked")
+    class BadConn:
+        row_factory = None
+        def cursor(self): return BadCursor()
+        def execute(self, *a, **k): raise sqlite3.OperationalError("database is locked")
+        def commit(self): raise sqlite3.OperationalError("database is locked")
+        def rollback(self): pass
+        def close(self): pass
+        def __enter__(self): return self
+        def __exit__(self, *a): return False
+    bad = types.SimpleNamespace(**{k: getattr(sqlite3, k) for k in dir(sqlite3) if not k.startswith("__")})
+    bad.connect = lambda *a, **k: BadConn()
+    try:
+        async def go():
+            loop = asyncio.get_running_loop()
+            out = []
+            for pinned, presented in ((0, 1), (0, 0), (None, 1)):
+                for op in ("get", "upload", "delete"):
+                    path = Path(tmp) / ("f%s%s%s.db" % (pinned, presented, op))
+                    db = TOFUDatabase(path)
+                    if pinned is not None: db.trust("a.example", 1965, cs[pinned]["cert"])
+                    client = GeminiClient(timeout=1.0, trust_on_first_use=True, tofu_db_path=path)
+                    trace = []
+                    tofu.sqlite3 = bad
+                    try:
+                        result = await c03.one_call(loop, client, op, "gemini://a.example/p?q=1", c03.Peer(cs[presented]["der"], [b"20 text/plain\r\nhi"], None),
+                                                    trace, b"secret content", "tok3n", referee_verdict=["refused"])
+                    finally:
+                        tofu.sqlite3 = sqlite3
+                    out.append((pinned, presented, op, result, trace))
+            return out
+        for pinned, presented, op, result, trace in asyncio.run(go()):
+            res.evaluations += 1; res.count("store-fault-at-verification")
+            res.nontriv(("store-fault", pinned, presented, op))
+            writes = [e for e in trace if e[0] == "w" and e[1] != b""]
+            if writes or result[0] == "result" and result[1][0] == "ok":
+                res.violations.append({"clause": "no request byte leaves when the pin could not be checked (trust store unreadable)",
+                                       "signature": "C11:store-fault:" + op,
+                                       "case": {"operation": op, "pinned_certificate": pinned, "presented_certificate": presented,
+                                                "fault": "every statement on the trust store raises sqlite3.OperationalError('database is locked')"},
+                                       "trace": {"result": str(result)[:200], "bytes_written_to_the_peer": [w[1][:80].decode("latin-1") for w in writes]}})
+    finally:
+        tofu.sqlite3 = sqlite3
+        shutil.rmtree(tmp, ignore_errors=True)
+
 def run(tier, seed):
     res = Result()
     res.rule = ("every TOFU situation (unpinned / pinned-same / pinned-different / unreadable certificate) x get / upload (token, content) / delete; the fake peer "
                 "records every byte and the position of the verification; non-trivial = distinct (store, host:port, presented, operation)")
     recs = c03.run_histories(tier, seed + 11, tofu_modes=(True, True, True, False))
     c03.judge(recs, res, "C11", ["C11.ok"])
+    store_fault_cases(res)
+    res.rule += " | plus pin-store faults at verification time (every statement raises sqlite3.OperationalError): whatever the call reports, nothing may be written to a peer whose certificate differs from the pin / cannot be read / was never verified"
     # over a real TLS handshake: pin certificate A, then the same host:port presents certificate B (get and upload)
     import livepair
     livepair.run_cert_change(res, tier)
